@@ -495,9 +495,17 @@ func (e *Enc) verifyFunc(fn *ssa.Function, c *FuncContract) {
 			e.inputs = append(e.inputs, ModelVar{Name: p.Name() + sh[i].Path, Term: l, Typ: p.Type()})
 		}
 	}
+	var fvCells []T
 	for i, fv := range fn.FreeVars {
 		v := e.freshVal(fv.Type(), "fv_"+fv.Name())
 		e.assert(T{BoolS, app("<", "0", v.L[0].E)})
+		if _, isPtr := fv.Type().Underlying().(*types.Pointer); isPtr && len(v.L) == 1 {
+			// captured variables are different variables: their cells are pairwise distinct
+			for _, o := range fvCells {
+				e.assert(Not(Eq(o, v.L[0])))
+			}
+			fvCells = append(fvCells, v.L[0])
+		}
 		for len(fr.bind) <= i {
 			fr.bind = append(fr.bind, Val{})
 		}
